@@ -1317,6 +1317,15 @@ class vRecur(CaselessDict):
             typ = self.types.get(key, vText)
             if not isinstance(vals, SEQUENCE_TYPES):
                 vals = [vals]
+            if key == 'UNTIL':
+                # UNTIL cannot carry a TZID: a date-time with a time zone
+                # is written in UTC
+                vals = [
+                    tzp.localize_utc(val)
+                    if isinstance(val, datetime) and val.tzinfo is not None
+                    else val
+                    for val in vals
+                ]
             vals = b','.join(typ(val).to_ical() for val in vals)
 
             # CaselessDict keys are always unicode
